@@ -1,5 +1,4 @@
 import StorageModel.Base.Bytes
-import StorageModel.Generated.C09Quirks
 /-
   C09 — executable model of the integrity checker of openziti/storage:
 
@@ -8,6 +7,10 @@ import StorageModel.Generated.C09Quirks
                               no CheckIntegrity and BaseStore.CheckIntegrity never visits them)
     boltz/store_crud.go       BaseStore.CheckIntegrity (link collections first, then the
                               constraints in registration order)
+
+  as of the repairs cd22877 (set index writes only when fixing), 6e61536 (an empty value in a
+  unique index is skipped like nil), 946f949 (`IterateLinks` is a read-only lookup) and 0fc3c29
+  (dangling links are queued and removed after the link-cursor loop).
 
   The state is NOT assumed consistent: entity tables, unique-index buckets, set-index buckets and
   the per-entity set buckets (fk back-references, link lists, indexed string lists) are
@@ -20,8 +23,11 @@ import StorageModel.Generated.C09Quirks
     cursor is a traversal of the list *as it was when the cursor was opened* (a snapshot), while
     every lookup made inside the loop body reads the current state.  This is bbolt's behaviour
     for a bucket that was not modified earlier in the same transaction, including
-    `Cursor.Delete` / `Bucket.Delete` of the current element followed by `Next` (modelled, not
-    verified; the one-transaction modes of the harness look for the other behaviour).
+    `Cursor.Delete` of the current element followed by `Next` in the unique / set / fk loops
+    (modelled, not verified: after a delete in a bucket that WAS modified earlier in the
+    transaction bbolt's `Next` skips an entry — which is what the link loop did until 0fc3c29;
+    the buckets pruned by the remaining `cursor.Delete()` loops are written by no other check
+    before, and the one-transaction modes of the harness exercise them).
   * `[]byte` values: `nil` and the empty slice are both `[]`; the places where the Go code tests
     the *type* (`fieldType == TypeNil`) use `FVal`.
   * no error / panic outcome: inside the modelled state space (no empty ids, keys or set
@@ -203,17 +209,6 @@ def seqAll : List Proc → Proc
   | [] => Proc.skip
   | p :: ps => p.seq (seqAll ps)
 
-/-! ### code-shape facts regenerated from the source on every run (extract/c09quirks.go)
-
-  The model has both variants of two code sites, so that it keeps following the code when the
-  repairs proposed in /verif/fixes/proposed are applied.  Proofs never unfold these constants. -/
-
-/-- `linkCollectionImpl.IterateLinks` creates the link bucket (`GetOrCreatePath`) -/
-def quirkLinksCreate : Bool := Generated.c09IterateLinksCreates
-
-/-- the entity loop of `uniqueIndex.CheckIntegrity` tests `fieldType == TypeNil || len(fieldVal) == 0` -/
-def quirkEmptyIsNil : Bool := Generated.c09EmptyUniqueIsNil
-
 /-! ### uniqueIndex.CheckIntegrity -/
 
 /-- `index.Read(tx, val)` = `indexBucket.Get(val)`; bbolt never finds the empty key -/
@@ -240,7 +235,8 @@ def uqStep2 (st f : Name) (nullable fix : Bool) (s : St) (id : Id) : St × List 
   match s.evalT st id f with
   | .nil => (s, if nullable then [] else [⟨st, f, .uqNull id, false⟩])
   | .str fv =>
-    if quirkEmptyIsNil = true ∧ fv = [] then (s, if nullable then [] else [⟨st, f, .uqNull id, false⟩])
+    -- `fieldType == TypeNil || len(fieldVal) == 0` (fix 6e61536): an empty value is skipped like nil
+    if fv = [] then (s, if nullable then [] else [⟨st, f, .uqNull id, false⟩])
     else
       match readU s st f fv with
       | none => (if fix then uqRepair s st f fv id else s, [⟨st, f, .uqMissing fv id, fix⟩])
@@ -377,21 +373,25 @@ def fkConsCheck (st f : Name) (nullable : Bool) (linked : Name) (fix : Bool) : P
 
 /-! ### linkCollectionImpl.CheckIntegrity -/
 
-/-- one link `linkId` of entity `id` -/
+/-- one link `linkId` of entity `id`.  A dangling link is only *queued* (`dangling = append(...)`,
+    fix 0fc3c29) and removed after the loop, see `lkStep`; a missing reverse link is added at once. -/
 def lkInner (st f oSt oF : Name) (fix : Bool) (id : Id) (s : St) (linkId : Id) : St × List Report :=
-  if !s.present oSt linkId then
-    -- RemoveLink → checkAndUnlink: delete the local entry; the other side has no entity bucket
-    (if fix then s.delFromSet st id f linkId else s, [⟨st, f, .lkDangling id linkId, fix⟩])
+  if !s.present oSt linkId then (s, [⟨st, f, .lkDangling id linkId, fix⟩])
   else if !s.hasBack oSt linkId oF id then
     -- otherField.AddLink: GetOrCreatePath + SetListEntry
     (if fix then s.addToSet oSt linkId oF id else s, [⟨st, f, .lkOneSided id linkId, fix⟩])
   else (s, [])
 
-/-- `IterateLinks` goes through `getFieldBucket`, i.e. `GetOrCreatePath`: the link bucket of every
-    visited entity is created when absent — in check-only mode too (inside a writable
-    transaction); see `bucketsEnsured`. -/
+/-- `RemoveLink` of every queued dangling link (`checkAndUnlink`: delete the local entry; the
+    other side has no entity bucket) -/
+def lkRemoveAll (st f : Name) (id : Id) (dangling : List Id) (s : St) : St :=
+  dangling.foldl (fun x l => x.delFromSet st id f l) s
+
+/-- `IterateLinks` is a read-only lookup (fix 946f949): a missing link bucket is an empty list -/
 def lkStep (st f oSt oF : Name) (fix : Bool) (s : St) (id : Id) : St × List Report :=
-  runSteps (lkInner st f oSt oF fix id) (s.setOf st id f) s
+  let links := s.setOf st id f
+  let r := runSteps (lkInner st f oSt oF fix id) links s
+  (if fix then lkRemoveAll st f id (links.filter fun l => !s.present oSt l) r.1 else r.1, r.2)
 
 def linkCheck (st f oSt oF : Name) (hasInverse fix : Bool) : Proc :=
   Proc.seq (fun s => (s, if hasInverse then [] else [⟨st, f, .lkNoInverse, false⟩]))
@@ -448,16 +448,12 @@ def checkAll (S : Schema) (fix : Bool) : Proc :=
 
 /-! ### nested buckets created through `GetOrCreatePath`
 
-  Call sites inside the checker: `IterateLinks → getFieldBucket` (every visited entity of a store
-  with a link collection, in BOTH modes), `RemoveLink → getFieldBucket` (the same bucket),
-  `otherField.AddLink` (repair of a one-sided link) and `fkIndex.getIndexBucket` in the fix branch
-  (repair of a missing back-reference).  The last two coincide with a `fixed` report. -/
+  The existence of an empty nested bucket is not part of the state.  Creating call sites inside
+  the checker: `otherField.AddLink` (repair of a one-sided link) and `fkIndex.getIndexBucket` in
+  the fix branch (repair of a missing back-reference); both coincide with a `fixed` report.
+  (`RemoveLink → getFieldBucket` only ever meets the bucket the dangling link was read from.) -/
 
 def Schema.linkColls (S : Schema) : List LinkColl := S.flatMap (·.links)
-
-/-- link buckets `IterateLinks` makes sure exist: `(store, id, field)` -/
-def linkEnsures (S : Schema) (s : St) : List (Name × Id × Name) :=
-  if quirkLinksCreate then S.linkColls.flatMap fun lc => (s.ids lc.st).map fun id => (lc.st, id, lc.f) else []
 
 /-- the bucket a repairing write creates if necessary -/
 def reportEnsures (S : Schema) (r : Report) : List (Name × Id × Name) :=
@@ -472,8 +468,8 @@ def reportEnsures (S : Schema) (r : Report) : List (Name × Id × Name) :=
         | _ => none
     | _ => []
 
-/-- all nested buckets a run of `checkAll` over `s` that produced `reports` has created or found -/
-def bucketsEnsured (S : Schema) (s : St) (reports : List Report) : List (Name × Id × Name) :=
-  linkEnsures S s ++ reports.flatMap (reportEnsures S)
+/-- all nested buckets a run of `checkAll` that produced `reports` has created or found -/
+def bucketsEnsured (S : Schema) (reports : List Report) : List (Name × Id × Name) :=
+  reports.flatMap (reportEnsures S)
 
 end StorageModel.C09
